@@ -52,14 +52,14 @@ pub async fn make_target(dir: &Path, kind: BackendKind) -> anyhow::Result<Backen
 
 // --------------------------------------------------------------------- model
 
-#[derive(Clone, Debug, PartialEq, Eq, serde::Serialize)]
+#[derive(Clone, Debug, PartialEq, Eq, serde::Serialize, serde::Deserialize)]
 pub struct SecretM {
     pub meta: Value,
     pub secret: Value,
     pub kind: String,
 }
 
-#[derive(Clone, Debug, PartialEq, Eq, serde::Serialize)]
+#[derive(Clone, Debug, PartialEq, Eq, serde::Serialize, serde::Deserialize)]
 pub struct FolderM {
     pub name: String,
     pub flags: u64,
@@ -69,7 +69,7 @@ pub struct FolderM {
 
 pub type Snap = BTreeMap<VaultId, FolderM>;
 
-#[derive(Clone, Debug, Default)]
+#[derive(Clone, Debug, Default, serde::Serialize, serde::Deserialize)]
 pub struct Model {
     pub folders: Snap,
     /// secret slot -> (folder, id)
